@@ -132,8 +132,6 @@ class SerializerBase(object):
         if type(obj) in (set, dict, tuple, list):
             # we use a ValueError to mirror the exception type returned by serpent and other serializers
             raise ValueError("can't serialize type " + str(obj.__class__) + " into a dict")
-        if hasattr(obj, "_pyroDaemon"):
-            obj._pyroDaemon = None
         if isinstance(obj, BaseException):
             # special case for exceptions
             return {
@@ -150,9 +148,14 @@ class SerializerBase(object):
         if has_own_getstate:
             value = obj.__getstate__()
             if isinstance(value, dict):
+                if value.get("_pyroDaemon") is not None:
+                    value = dict(value)
+                    value["_pyroDaemon"] = None   # the copy doesn't reference the daemon (the object itself is left alone)
                 return value
         try:
             value = dict(vars(obj))  # make sure we can serialize anything that resembles a dict
+            if "_pyroDaemon" in value:
+                value["_pyroDaemon"] = None   # the copy doesn't reference the daemon (the object itself is left alone)
             value["__class__"] = obj.__class__.__module__ + "." + obj.__class__.__name__
             return value
         except TypeError:
@@ -160,7 +163,7 @@ class SerializerBase(object):
                 # use the __slots__ instead of the vars dict
                 value = {}
                 for slot in obj.__slots__:
-                    value[slot] = getattr(obj, slot)
+                    value[slot] = getattr(obj, slot) if slot != "_pyroDaemon" else None
                 value["__class__"] = obj.__class__.__module__ + "." + obj.__class__.__name__
                 return value
             else:
